@@ -59,7 +59,7 @@ def run_one(ck, prog):
             from ..engine.cfg import span_str
             ck.ob("C11.1", f"{name}|{s['key']}", ok, fn=fn["path"], site=span_str(s["sp"]),
                   detail=("reachable panic: " if not ok else "") + why)
-    ck.floor("C11.1", "potential panic sites", n_sites, 18 if ck.config != "C" else 12)
+    ck.floor("C11.1", "potential panic sites", n_sites, {"C": 12, "R": 4}.get(ck.config, 18))   # release MIR carries no overflow assertions
     ck.extra.setdefault("reviewed_entries_used", {})[ck.config] = sorted(f"{a}|{b}" for a, b in used_reviews)
 
     # ---- C11.2 raw reads stay inside non-terminated slices ------------------------------------------------------
